@@ -453,6 +453,7 @@ fn all_ops(rt: &tokio::runtime::Runtime, provider: &dyn Fn() -> std::sync::Arc<d
     op!("get_me", c, c.get_me());
     op!("get_stats", c, c.get_stats());
     op!("get_clients", c, c.get_clients());
+    op!("snapshot", c, c.snapshot(iggy::snapshot::SnapshotCompression::Stored, vec![iggy::snapshot::SystemSnapshotType::Test]));
     opt!("get_client", c, c.get_client(1));
     op!("get_users", c, c.get_users());
     opt!("get_user", c, c.get_user(&Identifier::named("other-user").unwrap()));
